@@ -8,7 +8,7 @@ RAW = os.path.join(ROOT, ".work", "seeded_raw")
 OUT = os.path.join(ROOT, "seeded")
 
 detect = {}
-for log in sorted(glob.glob(os.path.join(ROOT, ".work", "mut_*.log"))):
+for log in sorted(glob.glob(os.path.join(ROOT, ".work", "mut_*.log")), key=os.path.getmtime):  # later runs override earlier ones
     cur = None
     for line in open(log, errors="replace"):
         m = re.match(r"^#### (\S+)", line)
@@ -39,7 +39,7 @@ for d in sorted(glob.glob(os.path.join(RAW, "*", "m*"))):
     sid = "%s-%s" % (pid, mn)
     dst = os.path.join(OUT, sid)
     os.makedirs(dst, exist_ok=True)
-    for f in ("patch.diff", "demo.py", "notes.md"):
+    for f in ("patch.diff", "demo.py", "notes.md", "patch_on_c0aa3e9.diff"):
         if os.path.exists(os.path.join(d, f)):
             shutil.copy(os.path.join(d, f), os.path.join(dst, f))
     det = detect.get(key, {})
@@ -57,5 +57,16 @@ for d in sorted(glob.glob(os.path.join(RAW, "*", "m*"))):
     }
     json.dump(meta, open(os.path.join(dst, "meta.json"), "w"), indent=1)
     index.append((sid, caught, sorted(det)))
+lines = ["# Seeded changes", "",
+         "Each directory holds `patch.diff` (against /repo commit c38f85e unless a `patch_on_<commit>.diff` is also present),",
+         "`demo.py` (exits 0 on the unchanged tree, 1 with the patch), the author's `notes.md` and `meta.json`.",
+         "Written by independent sub-agents that saw only the property text; confirmed with `tools/confirm_mutant.sh`;",
+         "run against the checks with `tools/try_mutant.sh` (scratch worktree, quick tier).", "",
+         "| id | breaks | changed | caught by (quick tier) | checks run |", "|---|---|---|---|---|"]
 for sid, caught, ran in index:
+    meta = json.load(open(os.path.join(OUT, sid, "meta.json")))
+    lines.append("| %s | %s | %s | %s | %s |" % (sid, meta["breaks_property"], meta["changed"].replace("|", "/"), ", ".join(caught) or "**not caught**" + (" — " + meta["comment"] if meta.get("comment") else ""), ", ".join(ran)))
     print("%-8s caught by %-30s (ran %s)" % (sid, ",".join(caught) or "-", ",".join(ran)))
+ncaught = sum(1 for _, c, _ in index if c)
+lines += ["", "%d of %d seeded changes are caught by at least one quick-tier check." % (ncaught, len(index)), ""]
+open(os.path.join(OUT, "INDEX.md"), "w").write("\n".join(lines))
